@@ -5,6 +5,8 @@ import AfkakProofs.Wire.GroupPayloads
 import AfkakProofs.Wire.Glue
 import AfkakProofs.Wire.TotalProduce
 import AfkakProofs.Wire.TotalGroup
+import AfkakProofs.Wire.Compressed
+import AfkakProps.C05
 import AfkakProps.Open.C04
 /-!
 # C04 — every request on the wire conforms to the Kafka protocol grammar
@@ -361,8 +363,8 @@ theorem C04_version_choice (t : List ApiVersion) (key : Int) (v : ApiVersion) (r
     split
     · rfl
     · rename_i hc; simp only [fetchClampAt] at hc; omega
-  · simp only [versionChosenOk, Bool.and_eq_true, List.any_eq_true, decide_eq_true_eq]
-    refine ⟨⟨by omega, by omega⟩, v, hvt, ⟨⟨hvk, by omega⟩, by omega⟩⟩
+  · simp only [versionChosenOk, replyImplemented, Bool.and_eq_true, List.any_eq_true, decide_eq_true_eq]
+    exact ⟨by decide, v, hvt, ⟨⟨hvk, by omega⟩, by omega⟩⟩
   · intro data
     simp only [decodeProduceResponse, produceRespV0Is, produceRespV2From]
     have h1 : ¬ v.maxVersion = 0 := by omega
@@ -525,6 +527,157 @@ example : sendFetchVersions .legacy [] = some (.ok (.legacy, 0, 0)) := by decide
 /-- Before the fix of F5 a table that was not in key order gave the wrong version; the lookup is by
     key: here the table lists ApiVersions first and Produce last. -/
 example : lookupVersion 0 (.table [⟨18, 0, 3⟩, ⟨1, 0, 11⟩, ⟨3, 0, 9⟩, ⟨0, 0, 8⟩]) = some 8 := by decide
+
+/-- **The fallback, for every sequence of attempts** (the two named shapes of `C04_fallback_zero` /
+    `C04_fallback_on_error_code` are instances):
+    * a discovery that ends normally ends in the fallback state or in the table of a reply whose error code is 0;
+    * as many unanswered attempts as the loop allows end in the fallback state, whatever follows;
+    * fewer unanswered attempts followed by a reply with a non-zero error code end in the fallback state;
+    * in the fallback state every request carries version 0, the producer writes format 0, and both
+      clamps keep 0;
+    * a reply the decoder REJECTS (truncated, garbled) does not fall back: the decoder's exception
+      fails the call and the state stays undiscovered, so the next call runs the discovery again. -/
+theorem C04_fallback_general :
+    (∀ attempts st, fetchApiVersions attempts = some (.ok st) →
+      st = .legacy ∨ ∃ data vs, Attempt.reply data ∈ attempts ∧ decodeApiVersionsResponse data = .ok (0, vs) ∧ st = .table vs)
+    ∧ (∀ rest, fetchApiVersions (List.replicate apiVersionAttempts .unavailable ++ rest) = some (.ok .legacy))
+    ∧ (∀ k data err vs rest, k < apiVersionAttempts → decodeApiVersionsResponse data = .ok (err, vs) → err ≠ 0 →
+        fetchApiVersions (List.replicate k .unavailable ++ .reply data :: rest) = some (.ok .legacy))
+    ∧ (∀ key attempts, getApiVersion .legacy key attempts = some (.ok (.legacy, 0)))
+    ∧ (producerMagic .legacy = 0 ∧ produceClamp 0 = (0, 0) ∧ fetchClamp 0 = 0)
+    ∧ (∀ k data e rest key, k < apiVersionAttempts → decodeApiVersionsResponse data = .error e →
+        getApiVersion .undiscovered key (List.replicate k .unavailable ++ .reply data :: rest) = some (.error e)) := by
+  refine ⟨?_, ?_, ?_, ?_, by decide, ?_⟩
+  · intro attempts st h; exact fetchLoop_ok_char _ attempts st h
+  · intro rest; exact fetchLoop_all_unavailable _ rest
+  · intro k data err vs rest hk hd he; exact fetchLoop_error_code _ k data err vs rest hk hd he
+  · intro key attempts; rfl
+  · intro k data e rest key hk hd
+    simp only [getApiVersion, fetchApiVersions, fetchLoop_garbled _ k data e rest hk hd]
+
+/-- **Version 1 replies are not implemented**, and the monitor does not count version 1 as
+    implemented: the fetch decoder raises `UnboundLocalError` on every input when handed version 1
+    (the produce decoder reads the version-2 layout).  A table advertising `max = 1` for Fetch makes
+    the client send version 1 — such tables (and tables with `min > 0` or without an entry for the API)
+    are outside the property's quantifier (`min ≤ 0`, `max ≥ 2`) and `versionVerdict` does not judge them. -/
+theorem C04_reply_v1_not_implemented :
+    (∀ ext depth data, decodeFetchResponse ext depth data 1 = ([], .error .unboundLocal))
+    ∧ (∀ data, decodeProduceResponse data 1 = decodeProduceResponse data 2)
+    ∧ (∀ t key, versionChosenOk t key 1 = false)
+    ∧ (∀ t key hv ms, inQuantifier t key = false → versionVerdict t key hv ms = .outOfRange) := by
+  refine ⟨?_, ?_, ?_, ?_⟩
+  · intro ext depth data; rfl
+  · intro data; rfl
+  · intro t key; rfl
+  · intro t key hv ms h; simp [versionVerdict, h]
+
+/-- the boundary of the quantifier, made visible: `max = 1` ⇒ header version 1; no entry ⇒ 0 with
+    format 1; `min = 3` ⇒ version 2 although not advertised -/
+example : sendFetchVersions (.table [⟨1, 0, 1⟩]) [] = some (.ok (.table [⟨1, 0, 1⟩], 1, 1))
+    ∧ versionVerdict [⟨1, 0, 1⟩] 1 1 [] = .outOfRange := by decide
+example : sendProduceVersions (.table [⟨18, 0, 3⟩]) [] 1 = some (.ok (.table [⟨18, 0, 3⟩], 0, some 0))
+    ∧ producerMagic (.table [⟨18, 0, 3⟩]) = 1 ∧ versionVerdict [⟨18, 0, 3⟩] 0 0 [1] = .outOfRange := by decide
+example : lookupVersion 0 (.table [⟨0, 3, 9⟩]) = some 9 ∧ (produceClamp 9).1 = 2
+    ∧ versionVerdict [⟨0, 3, 9⟩] 0 2 [1] = .outOfRange := by decide
+
+/-- **Message format 1 only in Produce v2**: for every table in the quantifier the producer writes
+    format 1 AND the request goes out as version 2; in every state in which the request goes out
+    older than 2 without a table (undiscovered, fallback) the producer writes format 0.  Hence the
+    monitor's `formatOk` holds for every frame the model of the flow can produce inside the
+    quantifier. -/
+theorem C04_format_matches_version (t : List ApiVersion) (v : ApiVersion) (rest : List ApiVersion)
+    (hfirst : t.filter (fun e => e.apiKey = produceKey) = v :: rest)
+    (hmin : v.minVersion ≤ 0) (hmax : 2 ≤ v.maxVersion) :
+    inQuantifier t produceKey = true
+    ∧ producerMagic (.table t) = 1
+    ∧ lookupVersion produceKey (.table t) = some v.maxVersion
+    ∧ produceClamp v.maxVersion = (2, 1)
+    ∧ (∀ ms, versionVerdict t produceKey 2 ms = .ok)
+    ∧ (producerMagic .undiscovered = 0 ∧ producerMagic .legacy = 0 ∧ producerMagic (.table []) = 0) := by
+  have hv : v ∈ t.filter (fun e => e.apiKey = produceKey) := by rw [hfirst]; exact List.mem_cons_self
+  have hvt : v ∈ t := (List.mem_filter.mp hv).1
+  have hvk : v.apiKey = produceKey := by simpa using (List.mem_filter.mp hv).2
+  have hq : inQuantifier t produceKey = true := by
+    simp only [inQuantifier, hfirst, Bool.and_eq_true, decide_eq_true_eq]; exact ⟨hmin, hmax⟩
+  have hc : versionChosenOk t produceKey 2 = true := by
+    simp only [versionChosenOk, replyImplemented, Bool.and_eq_true, List.any_eq_true, decide_eq_true_eq]
+    exact ⟨by decide, v, hvt, ⟨⟨hvk, by omega⟩, by omega⟩⟩
+  refine ⟨hq, ?_, ?_, ?_, ?_, by decide⟩
+  · cases t with
+    | nil => simp at hvt
+    | cons a as => rfl
+  · simp only [lookupVersion, hfirst]
+  · unfold produceClamp
+    split
+    · rfl
+    · rename_i hcl; simp only [produceClampAt] at hcl; omega
+  · intro ms
+    simp [versionVerdict, hq, hc, formatOk]
+
+/-- **The reply decoder is the decoder of the version in the header, and that decoder round-trips**
+    (the C05 theorems, cited): whenever the version handed on is 0 or at least 2 — every version the
+    client can choose inside the quantifier, and the fallback — the decoder the glue applies to the
+    reply decodes the grammar's encoding (of that header version's response layout) of any
+    well-formed value to exactly that value.  Version 1 is excluded: see
+    `C04_reply_v1_not_implemented`. -/
+theorem C04_glue_reply_roundtrip (vEnc : Int) :
+    (vEnc = 0 → (produceClamp vEnc).1 = 0 ∧ fetchClamp vEnc = 0
+      ∧ (∀ v e, Monitor.C05.expectedProduceV0 v = some (e, true) →
+          ∃ g, decodeProduceResponse (Spec.produceResponseV0.enc v) vEnc = .ok g ∧ Props.C05.finished g e)
+      ∧ (∀ (ext : Ext) (depth : Nat) v e,
+          Monitor.C05.expectedFetchV0 ext.crc (fun b => (ext.gunzip (some b)).toOption) depth v = some (e, true) →
+          Props.C05.finished (decodeFetchResponse ext (depth + 1) ((Spec.fetchResponseV0 ext.crc).enc v) vEnc) e))
+    ∧ (2 ≤ vEnc → (produceClamp vEnc).1 = 2 ∧ fetchClamp vEnc = 2
+      ∧ (∀ v e, Monitor.C05.expectedProduceV2 v = some (e, true) →
+          ∃ g, decodeProduceResponse (Spec.produceResponseV2.enc v) vEnc = .ok g ∧ Props.C05.finished g e)
+      ∧ (∀ (ext : Ext) (depth : Nat) v e,
+          Monitor.C05.expectedFetchV2 ext.crc (fun b => (ext.gunzip (some b)).toOption) depth v = some (e, true) →
+          Props.C05.finished (decodeFetchResponse ext (depth + 1) ((Spec.fetchResponseV2 ext.crc).enc v) vEnc) e)) := by
+  constructor
+  · intro h0
+    subst h0
+    exact ⟨by decide, by decide, Props.C05.C05_produce_v0_roundtrip, Props.C05.C05_fetch_v0_roundtrip⟩
+  · intro h2
+    refine ⟨?_, ?_, ?_, ?_⟩
+    · unfold produceClamp; split
+      · rfl
+      · rename_i hc; simp only [produceClampAt] at hc; omega
+    · unfold fetchClamp; split
+      · rfl
+      · rename_i hc; simp only [fetchClampAt] at hc; omega
+    · intro v e he
+      rw [decodeProduceResponse_clamp, show (produceClamp vEnc).1 = 2 from by
+        unfold produceClamp; split
+        · rfl
+        · rename_i hc; simp only [produceClampAt] at hc; omega]
+      exact Props.C05.C05_produce_v2_roundtrip v e he
+    · intro ext depth v e he
+      rw [decodeFetchResponse_clamp, show fetchClamp vEnc = 2 from by
+        unfold fetchClamp; split
+        · rfl
+        · rename_i hc; simp only [fetchClampAt] at hc; omega]
+      exact Props.C05.C05_fetch_v2_roundtrip ext depth v e he
+
+/-- **Compressed produce payloads**: the single wrapper `create_message_set(requests, CODEC_GZIP, magic)`
+    builds carries the gzip codec in its attributes, a null key, the format asked for, and as value the
+    compressor's output for exactly the grammar's encoding of the requests' payloads (offset 0, the
+    request's key, attributes 0, the clock's timestamp for format 1).  If the decompressor undoes the
+    compressor, the wrapper's value therefore decompresses to bytes that parse under the grammar to
+    exactly those entries (whenever the grammar can carry them).  The wrapper then goes into a produce
+    request like any other message (`C04_produce_conforms`, `C04_crc_valid`). -/
+theorem C04_compressed_payload (ext : Ext) (reqs : List (Option Bytes × List (Option Bytes))) (magic : Int)
+    (ms : List Message) (h : createMessageSet ext reqs codecGzip magic = .ok ms) :
+    ∃ w gz, ms = [w] ∧ w.attributes = codecGzip ∧ w.key = none ∧ w.value = some gz ∧ w.magic = magic
+      ∧ (w.timestamp = if magic = 1 then some ext.nowMs else none)
+      ∧ ext.gzip ((Spec.messageSet ext.crc).enc (plainEntries ext.nowMs magic reqs)) = .ok gz
+      ∧ ((∀ b z, ext.gzip b = .ok z → ext.gunzip (some z) = .ok b) →
+          (Spec.messageSet ext.crc).valid (plainEntries ext.nowMs magic reqs) = true →
+          ∃ inner, ext.gunzip (some gz) = .ok inner
+            ∧ (Spec.messageSet ext.crc).dec inner = some (plainEntries ext.nowMs magic reqs)) := by
+  obtain ⟨w, gz, h1, h2, h3, h4, h5, h6, h7⟩ := createMessageSet_gzip ext reqs magic ms h
+  refine ⟨w, gz, h1, h2, h3, h4, h5, h6, h7, ?_⟩
+  intro hinv hvalid
+  exact ⟨_, hinv _ _ h7, (Spec.messageSet ext.crc).law _ hvalid⟩
 
 /-- **The guard refuses exactly the lists that would lose a payload** (finding F18). -/
 theorem C04_guard_exact : C04_guard_exact_stmt := by
@@ -801,6 +954,11 @@ C04_glue_produce
 C04_glue_fetch
 C04_discovery_outcomes
 C04_refetch_keeps_table
+C04_fallback_general
+C04_reply_v1_not_implemented
+C04_format_matches_version
+C04_glue_reply_roundtrip
+C04_compressed_payload
 C04_guard_exact
 C04_duplicate_refused
 C04_produce_total
